@@ -422,6 +422,23 @@ fn inner_overlong(t: &mut Tape, obs: &mut Obs) -> R {
     }
     // inside a list: the element must not be yielded
     let r = guard("parse_tls_extensions", || parse_tls_extensions(&buf[..ext_end]).map(|(_, v)| v.len()).map_err(|_| ()))?;
+    // the optional SCT list: an inner length exceeding the extension must never yield the list (absent or an error are both acceptable)
+    if t.chance(40) {
+        let data = t.small_blob(30);
+        let mut e = Enc::new();
+        e.u16(18);
+        e.with_len(2, "ext.len", |e| {
+            e.u16(data.len() as u16 + 1 + t.below(500) as u16);
+            e.bytes(&data);
+        });
+        let mut b = e.buf;
+        b.extend(std::iter::repeat(0u8).take(600));
+        for (dn, p) in DISPATCHERS {
+            let got = call(p, &b)?;
+            ensure!(!matches!(&got, Ok((_, _, MExt::Sct(Some(_)), _))), format!("C05:inner-overlong:{}:sct.list", dn), "{} dispatcher: an SCT list length exceeding the extension yielded a list: {}", dn, trunc(&format!("{:?}", got)));
+        }
+        obs.class("Sct:sct.list");
+    }
     ensure!(r != Ok(1), "C05:inner-overlong:list", "parse_tls_extensions yielded the malformed {} extension", m.name());
     Ok(())
 }
